@@ -809,11 +809,98 @@ fn long_chain(seed: u64) -> (validator::Genesis, Vec<validator::Block>) {
     (c.genesis, blocks)
 }
 
+
+/// Scenario 6: the side channel brings the first k blocks (k = 1, 2 or 4, an environment choice) into an EMPTY
+/// store before anything was queued; the manager must follow (queued covers persisted, the blocks can be read
+/// back), and the rest of the chain - offered afterwards together with block 0 again - must follow the durable head.
+fn run_side_channel_into_empty_store(ch: &Ch, chn: &Chain) -> ExecResult {
+    let store = new_store(&chn.w.c.genesis);
+    let st2 = store.clone();
+    let sch = Arc::new(SendCh(ch.clone()));
+    let found: Arc<Mutex<Option<String>>> = Default::default();
+    let f2 = found.clone();
+    let k_chosen: Arc<Mutex<usize>> = Default::default();
+    let k2 = k_chosen.clone();
+    let stuck = sched::run(ch, |idle| async move {
+        let clock = ctx::ManualClock::new();
+        let root = ctx::test_root(&clock);
+        let (mgr, runner) = EngineManager::new(&root, Box::new(st2.clone()), time::Duration::seconds(1)).await.expect("manager");
+        let (mgr, root, st, sch, idle_ref, found) = (&mgr, &root, &st2, &sch, &idle, &f2);
+        let fut = async move {
+            scope::run!(root, |ctx, s| async move {
+                s.spawn_bg(async move { runner.run(ctx).await.map_err(|e| anyhow::format_err!("RUNNER-ERROR: {e:#}")) });
+                idle_ref.settle().await;
+                let k = [1usize, 2, 4][env_choose(&sch.0, 3)];
+                *k2.lock().unwrap() = k;
+                {
+                    let mut b = st.0.blocks.lock().unwrap();
+                    for i in 0..k {
+                        b.push(chn.blocks[i].clone().into());
+                    }
+                    drop(b);
+                    st.0.log.lock().unwrap().push(Ev::SideChannel { upto: k as u64 - 1 });
+                    st.publish();
+                }
+                idle_ref.settle().await;
+                let (q, p) = (mgr.queued(), mgr.persisted());
+                if q.next() < p.next() || q.first != p.first {
+                    *found.lock().unwrap() = Some(format!("after the first {k} block(s) reached an empty store through the side channel the manager reports queued {}..{} while persisted is {}..{} (queued must cover persisted)", q.first.0, q.next().0, p.first.0, p.next().0));
+                    return Ok(());
+                }
+                for n in 0..k as u64 {
+                    let got = mgr.get_block(ctx, BlockNumber(n)).await.ok().flatten().map(|b| block_id(&b));
+                    if got != Some(block_id(&chn.blocks[n as usize].clone().into())) {
+                        *found.lock().unwrap() = Some(format!("block {n} is durable (side channel, {k} block(s) into an empty store) but get_block({n}) does not return it"));
+                        return Ok(());
+                    }
+                }
+                // the rest of the chain, and block 0 once more
+                s.spawn_bg(async move {
+                    for i in std::iter::once(0).chain(k..5) {
+                        let _ = mgr.queue_block(ctx, chn.blocks[i].clone().into()).await;
+                    }
+                    Ok(())
+                });
+                for _ in 0..8 {
+                    idle_ref.settle().await;
+                    st.0.release.add_permits(1);
+                }
+                idle_ref.settle().await;
+                anyhow::Ok(())
+            })
+            .await
+        };
+        match sched::drive(&idle, fut, |k| k < 400).await {
+            sched::Driven::Done(r) => r.err().map(|e| format!("{e:#}")),
+            sched::Driven::Stuck => Some("STUCK".into()),
+        }
+    });
+    let lg = store.0.log.lock().unwrap().clone();
+    let k = *k_chosen.lock().unwrap();
+    let mut violation = found.lock().unwrap().clone();
+    if violation.is_none() {
+        violation = stuck.map(|s| format!("deadlock / error after {k} block(s) reached an empty store through the side channel: {s}"));
+    }
+    if violation.is_none() && store.next() < 5 {
+        violation = Some(format!("after {k} block(s) reached an empty store through the side channel only {} of 5 blocks became durable although the rest of the chain was offered and persistence kept completing writes", store.next()));
+    }
+    let canon: Vec<u64> = chn.blocks.iter().map(|b| block_id(&b.clone().into())).collect();
+    if violation.is_none() {
+        let stored: Vec<u64> = store.0.blocks.lock().unwrap().iter().map(block_id).collect();
+        if stored != canon {
+            violation = Some(format!("the durable chain is not the canonical one after a side-channel start with {k} block(s)"));
+        }
+    }
+    let violation = violation.map(|v| format!("{v}; events: {}", short_log(&lg)));
+    ExecResult { obs: fx_hash(&format!("{lg:?}")), violation, nontrivial: true, witnesses: vec![("side_channel_into_empty_store", 1), ("side_channel_jump", 1)] }
+}
+
 fn run_scenario(ch: &Ch, chn: &Chain, lgen: &validator::Genesis, long: &[validator::Block], sc: u32) -> ExecResult {
     match sc {
         5 => run_epochs(ch, &epoch_chain(chn.seed)),
         3 => run_prune_restart(ch, chn),
         4 => run_eviction(ch, lgen, long),
+        6 => run_side_channel_into_empty_store(ch, chn),
         _ => run_once(ch, chn, sc),
     }
 }
@@ -847,9 +934,9 @@ pub fn run(args: &Args) -> Report {
     let (lg, lb) = long_chain(args.seed);
     let (mut prunes, mut restarts_lossy, mut storage_reads) = (0u64, 0u64, 0u64);
     let mut epoch_boundary_restarts = 0u64;
-    for (k, sc) in [5u32, 2, 3, 4, 1].into_iter().enumerate() {
+    for (k, sc) in [6u32, 5, 2, 3, 4, 1].into_iter().enumerate() {
         let b = bound;
-        let cfg = ExploreCfg::new(&format!("engine-manager[scenario {sc}]"), b, if sc == 5 { Duration::from_secs(args.tier.pick(6, 120)) } else { budget.saturating_sub(t0.elapsed()) / (5 - k as u32) });
+        let cfg = ExploreCfg::new(&format!("engine-manager[scenario {sc}]"), b, if sc == 6 { Duration::from_secs(args.tier.pick(4, 60)) } else if sc == 5 { Duration::from_secs(args.tier.pick(6, 120)) } else { budget.saturating_sub(t0.elapsed()) / (6 - k as u32) });
         let st = explore(&cfg, |ch| run_scenario(ch, &chn, &lg, &lb, sc));
         epoch_boundary_restarts += *st.witnesses.get("restart_at_epoch_boundary").unwrap_or(&0);
         prunes += *st.witnesses.get("prunes").unwrap_or(&0);
@@ -882,6 +969,7 @@ pub fn run(args: &Args) -> Report {
         "samples": [
             {"scenario": 5, "case": "rotating validator schedule (no schedule in the genesis; the execution layer reports committee A for blocks 0-2 = epoch 0 and committee B from block 3 = epoch 1): blocks 0-2 are offered, the node dies with 1, 2 or 3 of them durable (3 = exactly the last block of epoch 0), a new manager is built over the durable image, and two peers offer the chain three times over, one of them preceded each time by a block 3 claiming epoch 0 but certified by committee B and a block 3 claiming epoch 1 but certified by committee A; the fetch interval passes on the manual clock"},
             {"scenario": 1, "case": "five submitters: [a pre-genesis-style block (external justification only) numbered genesis.first_block], [b0,b1,b2], [b1, a conflicting certified block 1, b3], [block 2 with an under-weight certificate, b0], [the certificate of b3 attached to a foreign payload]; persistence completes writes one at a time or lags"},
+            {"scenario": 6, "case": "the first 1 / 2 / 4 blocks reach an EMPTY store through the side channel before anything was queued; the manager must cover them, serve them, and accept the rest of the chain after the durable head"},
             {"scenario": 2, "case": "submitters [b0,b1], [b4], [b1]; blocks 2-3 only arrive through a side-channel persistence jump that overtakes the queue"},
             {"scenario": 3, "case": "submitters [b0,b1,b2], [b1,b2,b3]; persistence completes a write / prunes the oldest block / the node crashes (in-flight writes lost); a new manager over the durable image; a syncing peer offers b0..b4 again"},
             {"scenario": 4, "case": "108 pre-genesis blocks (cache capacity 100 + 8) submitted in order; persistence completes 1 or 60 writes or prunes all but the newest block at each quiescent point; reads of first / middle / last queued block"},
